@@ -24,11 +24,14 @@ def run(tier, seed, replay=None):
         dtype = torch.complex128 if cplx else torch.float64
         N = [rng.choice([1, 2, 3, 4, 5, 6]) for _ in range(d)]
         M = [rng.choice([1, 2, 3, 4, 5]) for _ in range(d)]
-        decay = rng.random() < 0.4
+        singleton = d >= 3 and rng.random() < 0.3          # an interior mode of size 1: only enrichment / the random kick can raise the ranks across it
+        if singleton:
+            kk = rng.randrange(1, d - 1); N[kk] = 1; M[kk] = 1
+        decay = rng.random() < 0.4 and not singleton
         eps = rng.choice([1e-12, 1e-10, 1e-8, 1e-6, 1e-4, 1e-2, 1e-1])
-        rk = lambda: solverkit.ranks(rng, d, rng.choice([1, 2, 3, 4]))
+        rk = (lambda: [1] + [rng.randint(2, 3) for _ in range(d - 1)] + [1]) if singleton else (lambda: solverkit.ranks(rng, d, rng.choice([1, 2, 3, 4])))
         sd = rng.randrange(1 << 30); torch.manual_seed(sd)
-        desc = {"routine": routine, "d": d, "N": N, "M": M, "eps": eps, "decay": decay, "dtype": str(dtype), "torch_seed": sd}
+        desc = {"routine": routine, "d": d, "N": N, "M": M, "eps": eps, "decay": decay, "dtype": str(dtype), "torch_seed": sd, "interior_singleton_mode": singleton}
         if routine in ("fast_matvec", "amen_mv"):
             A = solverkit.rand_ttm_float(rng, M, N, rk(), dtype, decay, cplx); x = solverkit.rand_tt_float(rng, N, rk(), dtype, decay, cplx)
             guess = solverkit.rand_tt_float(rng, M, rk(), dtype, False, cplx) if rng.random() < 0.35 else None
@@ -44,6 +47,7 @@ def run(tier, seed, replay=None):
             want_N, want_M = N, None
         else:
             K = [rng.choice([1, 2, 3]) for _ in range(d)]
+            if singleton: K[kk] = 1
             A = solverkit.rand_ttm_float(rng, M, K, solverkit.ranks(rng, d, 3), dtype, decay); B = solverkit.rand_ttm_float(rng, K, N, solverkit.ranks(rng, d, 3), dtype, decay)
             guess = solverkit.rand_ttm_float(rng, M, N, solverkit.ranks(rng, d, 2), dtype) if rng.random() < 0.35 else None
             ops = {"A": A, "B": B}; exact = A @ B
@@ -51,7 +55,8 @@ def run(tier, seed, replay=None):
             want_N, want_M = N, M
         if guess is not None: ops["guess"] = guess
         desc["guess"] = guess is not None
-        dist[routine + ("+guess" if guess is not None else "")] = dist.get(routine + ("+guess" if guess is not None else ""), 0) + 1
+        kd = routine + ("+guess" if guess is not None else "") + (" singleton-mode" if singleton else "")
+        dist[kd] = dist.get(kd, 0) + 1
         if i % 20 == 0 and len(samples) < 5: samples.append(desc)
         snaps = {k: history.Snap(v) for k, v in ops.items()}
         try:
